@@ -362,6 +362,10 @@ func c18NewTemporalLogClient(r *Run, fn *ssa.Function) {
 	if ovr == "" && cur != "" && c18FoldedShardLoop(r, fn, key) {
 		return
 	}
+	// the previous shard's interval read back from the list of intervals under construction (rules_t6c1518.go)
+	if ovr == "" && c18NeighbourPairs(r, fn, key) {
+		return
+	}
 	if !r.Check(key+":overall/next", ovr != "" && cur != "" && ovr != cur, r.FnPos(fn), "overall span starts as shardInterval(Shard[0]) in "+ovr+"; each later shard is shardInterval(Shard[i]) in "+cur) {
 		return
 	}
